@@ -30,6 +30,9 @@ REVIEWED = {
     'libtw2_demo::ddnet::writer::DemoWriter::write_snap | overflow | Sub | 0':
         "tick > last_tick >= -1 on this path and last_keyframe is a previously written tick >= 0, so tick - last_keyframe "
         "is a difference of two non-negative i32",
+    'libtw2_demo::ddnet::reader::DemoReader::next_chunk | precondition | libtw2_packer::Unpacker::new_from_demo | 0':
+        "new_from_demo requires a length divisible by 4: Reader::read_chunk builds RawChunk::Message from whole 4-byte groups "
+        "(`len += 4` per decoded int, slice &self.raw[..len])",
     # ---- datafile (after D9, D10)
     'libtw2_datafile::raw::Reader::check | overflow | Sub | 0':
         "num_items - t.start with t.start == expected_start (tested just above, C16 rule R2-validate-before-arithmetic) and "
